@@ -34,6 +34,11 @@ type pair struct {
 	agree []channel.Balances
 	// watchSide says which sides run Channel.Watch on their channels
 	watchSide [2]bool
+	// C08: scenario-controlled nonce shares and the last proposed allocation
+	nextAccKey, nextPropNonce string
+	accKeyMap                 map[string]string
+	lastAlloc                 channel.Allocation
+	lastData                  channel.Data
 
 	mu      sync.Mutex
 	ops     []*opRec
@@ -161,8 +166,26 @@ func (p *pair) open(step int, side int, st *kernel.Step) int {
 		alloc.Assets = append(alloc.Assets, gen.Asset(a))
 		alloc.Backends = append(alloc.Backends, channel.TestBackendID)
 		alloc.Balances = append(alloc.Balances, []channel.Bal{big.NewInt(int64(r.Range(200, 2000))), big.NewInt(int64(r.Range(200, 2000)))})
+		if st.Int("zero") == 1 && a == 0 {
+			alloc.Balances[0][r.Intn(2)] = big.NewInt(0)
+		}
 	}
-	opts := []client.ProposalOpts{client.WithNonceFrom(kernel.NewRand(kernel.Derive(p.s.Sc.Seed, "nonce", step)))}
+	nonceSeed := kernel.Derive(p.s.Sc.Seed, "nonce", step)
+	if p.nextPropNonce != "" {
+		nonceSeed = kernel.Derive(p.s.Sc.Seed, "nonce", p.nextPropNonce)
+		p.nextPropNonce = ""
+	}
+	if p.nextAccKey != "" {
+		p.n[1-side].SetNextAccNonce(p.nextAccKey)
+		p.nextAccKey = ""
+	}
+	opts := []client.ProposalOpts{client.WithNonceFrom(kernel.NewRand(nonceSeed))}
+	if st.Int("aux") == 1 {
+		var aux channel.Aux
+		copy(aux[:], kernel.NewRand(17).Bytes(channel.AuxMaxLen))
+		opts = append(opts, client.WithAux(aux))
+	}
+	p.lastAlloc, p.lastData = gen.CloneAlloc(alloc), channel.NoData()
 	appKind := int(st.Int("app"))
 	if appKind == gen.AppPayment {
 		opts = append(opts, client.WithApp(gen.PaymentApp(0), channel.NoData()))
